@@ -91,9 +91,10 @@ def universalNewlines : Bytes → Bytes
   | 13 :: rest => 10 :: universalNewlines rest
   | c :: rest => c :: universalNewlines rest
 
-/-- `open(path).read()`; `none` = UnicodeDecodeError -/
-def readText (raw : Bytes) : Option Bytes :=
-  if validUtf8 raw then some (universalNewlines raw) else none
+/-- `open(path, errors='surrogateescape').read()`: every byte string decodes (bytes that are not
+    UTF-8 become lone surrogates and come back unchanged through `os.fsencode`), universal newlines
+    apply.  Kept as an `Option` for the callers' sake: it never fails. -/
+def readText (raw : Bytes) : Option Bytes := some (universalNewlines raw)
 
 def lines (text : Bytes) : List Bytes := splitOn 10 text
 
